@@ -21,7 +21,7 @@ TRUSTED_BASE = L.TRUSTED_COMMON
 PROFILE = L.profile(without=['clear', 'rawupdate', 'rawdelete', 'unpickle'],
                     weights={'setattr': 18, 'set': 14, 'syncupdate': 8, 'sync': 5, 'expire': 4, 'select': 8, 'pickle': 4, 'destroy': 3,
                              'read': 8, 'create': 8},
-                    kinds=[1, 1, 1, 0], p_fault=0.03)
+                    kinds=[1, 1, 1, 0], p_fault=0.03, motifs=[L.motif_lazy_refetch], p_motif=0.06)
 FLUSHES = ('syncupdate', 'sync', 'pickle')
 
 
@@ -33,6 +33,11 @@ def corpus():
         {'cfg': {'cache': True, 'freq': 100, 'frac': 2},
          'ops': [['create', 1, [[1, 100]]], ['setattr', 0, 0, 3], ['setattr', 0, 0, 4], ['set', 0, [[2, 2]]], ['syncupdate', 0], ['syncupdate', 0]]},
         {'cfg': {'cache': True, 'freq': 100, 'frac': 2}, 'ops': [['create', 1, [[1, 100]]], ['setattr', 0, 0, 3], ['pickle', 0], ['destroy', 0]]},
+        # open finding: assignment on an expired lazy object, then a read of another column
+        {'cfg': {'cache': True, 'freq': 100, 'frac': 2}, 'ops': [['create', 1, [[1, 100]]], ['expire', 0], ['setattr', 0, 0, 3], ['read', 0, 2], ['syncupdate', 0]]},
+        # seeded once: a refused flush must not drop the pending values
+        {'cfg': {'cache': True, 'freq': 100, 'frac': 2},
+         'ops': [['create', 1, [[1, 100]]], ['create', 1, [[1, 101]]], ['setattr', 1, 1, 100], ['syncupdate', 1], ['setattr', 1, 0, 2], ['syncupdate', 1]]},
     ]
 
 
@@ -47,6 +52,7 @@ def search_cases(rng, tier):
 
 def failures(case, obs):
     LZ = 1
+    assigned_while_expired = set()
     for info in L.Walk(case, obs):
         st, prev, core = info['st'], info['prev'], info['core']
         t = core[0]
@@ -125,6 +131,18 @@ def failures(case, obs):
                     d = dict(base)
                     d['what'] = 'after assigning %r to column %d the object shows %r, pending %r' % (v, c, now[2][c], now[6])
                     yield d
+        # 4b. ... and keeps showing it until it is written
+        if t in ('setattr', 'set') and target is not None and target[0] == LZ and target[4]:
+            assigned_while_expired.add((target[0], target[1]))
+        for i, v in enumerate(st['slots']):
+            if v is None or v[0] != LZ:
+                continue
+            for c, pv in v[6]:
+                if v[2][c][0] == 'v' and v[2][c][1] != pv:
+                    d = dict(base)
+                    d['what'] = 'lazy instance in slot %d shows %r for column %d while %r is pending for it' % (i, v[2][c][1], c, pv)
+                    d['assigned_while_expired'] = (v[0], v[1]) in assigned_while_expired
+                    yield d
         # 5. inserts and deletes are immediate
         if t == 'create' and info['ok'] and core[1] == LZ:
             i = st['out'][1][1]
@@ -140,12 +158,19 @@ def failures(case, obs):
 
 
 def oracle(case, obs):
+    known = None
     for f in failures(case, obs):
-        return f
-    return None
+        if classify(case, obs, f) is None:
+            return f
+        known = known or f
+    return known
 
 
 def classify(case, obs, f):
+    # an assignment made on an EXPIRED lazy object sets just that attribute; the next read of another column reloads
+    # every attribute from the row and the object stops showing the pending value (it is still written at the next flush)
+    if f.get('assigned_while_expired'):
+        return 'lazy_assignment_on_expired_object_hidden_by_reload'
     return None
 
 
